@@ -22,6 +22,7 @@ import (
 	"github.com/tikv/client-go/v2/tikvrpc"
 	"github.com/tikv/client-go/v2/util/async"
 	"github.com/tikv/client-go/v2/verifrt/sched"
+	"github.com/tikv/client-go/v2/verifrt/stime"
 	pd "github.com/tikv/pd/client"
 	"github.com/tikv/pd/client/clients/tso"
 	"github.com/tikv/pd/client/pkg/caller"
@@ -352,6 +353,20 @@ func (s *seamRPC) SendRequest(ctx context.Context, addr string, req *tikvrpc.Req
 	}
 	resp, err := s.inner.SendRequest(ctx, addr, req, timeout)
 	rec.Resp, rec.Err = resp, err
+	if req.Type == tikvrpc.CmdPessimisticLock && err == nil && resp != nil && resp.Resp != nil && sched.Active() {
+		// A pessimistic lock request that meets a lock waits on the server before it answers. The mock
+		// simulates that with a 5 ms sleep under its store mutex (made instant by stime0, see there);
+		// the wait is re-created here, outside the store, as a virtual timer: the answer reaches the
+		// client only when nothing else is enabled (or when the explorer fires the timer early).
+		if r, ok := resp.Resp.(*kvrpcpb.PessimisticLockResponse); ok {
+			for _, e := range r.Errors {
+				if e != nil && e.Locked != nil {
+					stime.Sleep(5 * time.Millisecond)
+					break
+				}
+			}
+		}
+	}
 	if debugSeam && resp != nil {
 		if re, _ := resp.GetRegionError(); re != nil {
 			fmt.Fprintf(os.Stderr, "SEAM region error for c%d %s ctx=%v: %v\n", s.c.ID, label, req.Context.GetRegionEpoch(), re)
